@@ -116,7 +116,7 @@ Proof.
   cbn [wf] in Wv, Ww.
   destruct (list_eqb a b) eqn:EL.
   - apply list_eqb_eq in EL. subst b. rewrite N.eqb_refl. cbn [negb].
-    destruct (negb _); [reflexivity|]. apply list_eqb_eq. reflexivity.
+    destruct (negb _); [reflexivity|]. cbn [iface_eq]. apply list_eqb_eq. reflexivity.
   - destruct (N.eqb_spec (if Nat.leb (length a) 7 then (pack_bytes a + two56 * N.of_nat (length a))%N else 0%N)
                          (if Nat.leb (length b) 7 then (pack_bytes b + two56 * N.of_nat (length b))%N else 0%N)) as [E|_];
       [|reflexivity].
